@@ -939,7 +939,11 @@ fn validity(
     config: &Config,
 ) -> Result<Duration, Error> {
     let Ok(msg) = response else {
-        return Ok(config.transport_failure_duration);
+        // A failure is subject to the maximum validity as well.
+        return Ok(min(
+            config.max_validity,
+            config.transport_failure_duration,
+        ));
     };
 
     if msg.header().tc() && !config.cache_truncated {
